@@ -38,7 +38,7 @@ func (C06) Info() core.Info {
 func (C06) Gen(r *simrt.RNG, tier string) core.Case {
 	// the union of all generators: now and then borrow another property's world
 	if r.Chance(1, 3) || os.Getenv("VERIF_C06_BORROW") != "" {
-		gens := []core.Property{C09{}, C13{}, C07{}, C16{}, C10{}, C05{}, C03{}, C04{}, C02{}}
+		gens := []core.Property{C09{}, C13{}, C07{}, C16{}, C10{}, C05{}, C03{}, C04{}, C02{}, C08{}, C11{}, C15{}, C08{}}
 		if os.Getenv("VERIF_C06_BORROW") == "C09" {
 			return C09{}.Gen(r, tier)
 		}
